@@ -280,6 +280,44 @@ pub fn c13(ctx: &Ctx) -> Report {
             }
         });
     }
+    // every integer sample rate in [100, 48000] (quick: every 16th): the fast settings around the 2- and 4-sample
+    // limits, from rest and switched in during a glide
+    {
+        let stride: u64 = if thorough { 1 } else { 16 };
+        let n = (48_000 - 100) / stride + 1;
+        par_ranges(ctx, &mut rep, n, 512, |_, lo, hi, lc| {
+            for i in lo..hi {
+                let fs = (100 + i * stride) as f32;
+                for k in [0.0f32, 1.0, 2.0, 3.0, 3.5, 3.9, 4.0, 4.5, 6.0, 10.0] {
+                    for mid in [false, true] {
+                        let t = k / fs;
+                        let mut m = GlideM::new(fs, vec![0.0, 1.0], vec![]);
+                        let mut ops: Vec<GOp> = Vec::new();
+                        if mid {
+                            ops.extend([GOp::SetTime(0.2), GOp::Process(0.0), GOp::Hold(1.0, 5), GOp::SetTime(t), GOp::Hold(1.0, 12), GOp::Hold(0.25, 12)]);
+                        } else {
+                            ops.extend([GOp::SetTime(t), GOp::Hold(1.0, 12), GOp::Hold(-0.5, 12)]);
+                        }
+                        for (idx, op) in ops.iter().enumerate() {
+                            let mut out = StepOut::new();
+                            m.apply(op, &mut out);
+                            for (kk, c) in out.counts {
+                                lc.count(kk, c);
+                            }
+                            if !out.flags.is_empty() {
+                                for f in out.flags {
+                                    let already = lc.per_class.get(&f.class).copied().unwrap_or(0);
+                                    lc.violation(viol("C13", &f.class, f.detail, fs, if already < PER_CLASS_CAP { ops[..=idx].iter().map(GlideM::op_str).collect() } else { Vec::new() }));
+                                }
+                                break;
+                            }
+                        }
+                        lc.count("integer_rate_fast_settings", 1);
+                    }
+                }
+            }
+        });
+    }
     // convergence: after a hold of 8*t*fs samples the output has settled on the input
     let mut jobs: Vec<(f32, f32, f32, f32)> = Vec::new(); // fs, t, from, to
     for fs in [100.0f32, 1000.0, 48000.0] {
@@ -334,6 +372,7 @@ pub fn c13(ctx: &Ctx) -> Report {
     rep.require_nonzero("held_samples_with_output_still_moving");
     rep.require_nonzero("set_time_calls_while_gliding");
     rep.require_nonzero("long_holds");
+    rep.require_nonzero("integer_rate_fast_settings");
     rep.sample(json!({"script": {"machine": "glide", "config": {"fs": 1000.0}, "ops": ["set_time:1.0", "process:0.0", "process:1.0*500", "set_time:0.0", "process:1.0*8"]}, "meaning": "switching the glide off in the middle of a glide"}));
     rep.assumptions.push("inputs, times and sample rates are the stated menus; allowance A = 2*ulp(M)/(1-p) with p = 1 - min(1, 2*pi/(t*fs)) for the largest time that may be in effect".into());
     rep
@@ -480,6 +519,32 @@ pub fn c14(ctx: &Ctx) -> Report {
             }
         }
     });
+    // every integer sample rate in [100, 48000] (quick: every 16th): step from rest at three times
+    {
+        let stride: u64 = if thorough { 1 } else { 16 };
+        let n = (48_000 - 100) / stride + 1;
+        par_ranges(ctx, &mut rep, n, 512, |_, lo, hi, lc| {
+            for i in lo..hi {
+                let fs = (100 + i * stride) as f32;
+                for t in [150.0 / fs, 0.013 + 100.0 / fs, 1.3 / fs] {
+                    let nresp = ((t as f64 * fs as f64).round() as usize).max(8) + 2;
+                    let mut g = GlideProcessor::new(fs);
+                    g.set_time(t);
+                    let mut resp = Vec::with_capacity(nresp);
+                    for _ in 0..nresp {
+                        resp.push(g.process(1.0) as f64);
+                    }
+                    let a_rel = 2.0 * ulp32(1.0) as f64 / one_minus_p(t, fs);
+                    lc.count("integer_rate_step_responses", 1);
+                    if criterion(t, fs, &resp, a_rel) == Some(false) {
+                        let nn = ((t as f64 * fs as f64).round() as usize).max(1);
+                        lc.violation(viol("C14", if t * fs < 2.0 { "fastest-setting-not-settled-in-8-samples" } else { "time-constant" }, format!("fs={} Hz, t={:?} s, step 0 -> 1 from rest: covered {:.4} after t, {:.4} after t/10", fs, t, resp[(nn - 1).min(resp.len() - 1)], resp[((t as f64 * fs as f64 / 10.0).round() as usize).max(1) - 1]), fs, vec![format!("set_time:{:?}", t), format!("process:1.0*{}", nresp)]));
+                    }
+                }
+            }
+        });
+        rep.evaluations += n * 3;
+    }
     // (b) dead band: schedules
     let menu: [f32; 9] = [0.0, 0.04, 0.5, 0.53, 0.56, 0.6, 1.0, 1.04, 5.0];
     let fs = 8000.0f32;
@@ -583,6 +648,7 @@ pub fn c14(ctx: &Ctx) -> Report {
     rep.require_nonzero("schedules_ending_inside_the_dead_band");
     rep.require_nonzero("schedules_with_time_changes_on_a_settled_non_zero_level");
     rep.require_nonzero("above_10s_comparisons");
+    rep.require_nonzero("integer_rate_step_responses");
     rep.sample(json!({"fs": 1000.0, "t": 0.5, "step": [0.0, 1.0], "expected": "fraction after 500 samples >= 0.995, after 50 samples in [0.40, 0.55]"}));
     rep.sample(json!({"schedule": [0.5, 0.53, 0.56], "times_allowed_in_effect": [0.56, 0.53]}));
     rep
